@@ -695,5 +695,5 @@ func TestC19(t *testing.T) {
 		"(judged on the created units when the validator accepts them, otherwise on units the harness assembles from PadMessage/EncodeData/merkle.New/SignMessage with the validator's leaf encoding; "+
 		"the per-stage primitives Scheduler.ValidateShardOrigin (vs an independent sorted-committee schedule) / Proof.Verify / VerifyMessageSignature are judged unconditionally); "+
 		"sub-packages: reedsolomon encode/recover over every subset (+ one altered shard), "+
-		"merkle root/proofs vs an independent recursive definition + tampering, padding vs definition, hostile wire units through UnitFromProto. distinct = distinct (kind, configuration, length) tuples", 150)
+		"merkle root/proofs vs an independent recursive definition + tampering, padding vs definition, hostile wire units through UnitFromProto. distinct = distinct (kind, configuration, length) tuples", map[bool]int{false: 150, true: 40}[r.Race])
 }
